@@ -52,3 +52,11 @@ Lemma hyps_satisfiable :
   gchain Qc qname w_g = true /\ ham_free Qc qname w_g = true /\ qcshape [1; 1] 2 w_g = true /\
   anyc w_cs (qekeys w_g) = true /\ allc w_cs (qekeys w_g) = false /\ agree Qc w_cs w_r2 w_r2.
 Proof. repeat split; try reflexivity; try apply w_agree. Qed.
+
+(* non-vacuity of the family metric theorem: a StandardHamiltonian over a sum of two Gaussian likelihoods *)
+Definition w_fam : qcen :=
+  CHam (CAddL (CScale (q 4 1) (CGauss 1 None None (Mul (Var 0) (Var 1)))) (CGauss 1 (Some (vq [q 1 1])) (Some (vq [q 2 1])) (Var 1))).
+Lemma fam_satisfiable :
+  mfam Qc qname w_fam = true /\ qcshape [1; 1] 2 w_fam = true /\
+  anyc w_cs (qekeys w_fam) = true /\ allc w_cs (qekeys w_fam) = false.
+Proof. repeat split; reflexivity. Qed.
